@@ -32,7 +32,7 @@ if prop == "C20":
         r = subprocess.run(["go", "test", "-tags", "verif", "-overlay", scratch + "/ov.json", "-vet=off", "-count=1", "-v", "-timeout", "120s",
                             "-run", "^TestVerifReplay$", "."], cwd=repo + "/test", env=env, capture_output=True, text=True, timeout=300)
         lines = [l for l in r.stdout.splitlines() if l.startswith("VERIFWITNESS")]
-        cov["assumption_sanity"] = {"what": "6 helpers x 3 constraints x 4x4 hook behaviours x 7 marshaler behaviours x 6 predicate kinds (+ a type without the interface) run on the real helpers against an oracle written from the statement (empirical, not a proof)",
+        cov["assumption_sanity"] = {"what": "6 helpers x 3 constraints x 4x4 hook behaviours x 9 marshaler behaviours x 6 predicate kinds, each also as the second case of a list whose first case is of the other direction, plus pointer-typed T and a type without the interface, run on the real helpers against an oracle written from the statement (empirical, not a proof)",
                                     "exit": r.returncode, "output": "\n".join(lines)[-1200:]}
         if not any(l.startswith("VERIFWITNESSDONE found=0") for l in lines):
             print("govc: WARNING: the scripted-behaviour search disagrees with the proved clauses (see evidence)", file=sys.stderr)
